@@ -53,10 +53,20 @@ def generate(tier, seed):
     for i in range(n):
         fam = "poly2" if rng.random() < 0.75 else "poly1"
         gen = "random_poly2_thick" if fam == "poly2" and rng.random() < 0.5 else "random_" + fam
-        spec = getattr(P, gen)(rng, s=float(10 ** rng.uniform(-1, 1)))
+        sfac = float(10 ** rng.uniform(-1, 2))
+        forced = i % 4 == 0
+        if forced:
+            # two fields in units with T_n >> 1 and a pure exchange of the fields: the
+            # relative wall offset changes sign, so one-sided absolute bounds or
+            # tolerances on the wall parameters bite in one labelling only
+            fam, gen, sfac = "poly2", "random_poly2_thick", float(10 ** rng.uniform(1.5, 2))
+        spec = getattr(P, gen)(rng, s=sfac)
         nf = 2 if fam == "poly2" else 1
         trs = []
-        for _ in range(ntr):
+        if forced:
+            trs.append({"perm": [1, 0], "signs": [float(x) for x in rng.choice([-1.0, 1.0], size=2)],
+                        "shift_in_vev": [0.0, 0.0]})
+        for _ in range(ntr - len(trs)):
             perm = [int(x) for x in rng.permutation(nf)]
             signs = [float(x) for x in rng.choice([-1.0, 1.0], size=nf)]
             kind = rng.random()
@@ -67,7 +77,13 @@ def generate(tier, seed):
                 perm, signs = list(range(nf)), [1.0] * nf                   # pure translation
                 shift = [float(x) for x in rng.uniform(-2, 2, size=nf)]
             trs.append({"perm": perm, "signs": signs, "shift_in_vev": shift})
-        cases.append({"i": i, "spec": spec, "transforms": trs})
+        c = {"i": i, "spec": spec, "transforms": trs}
+        if forced:
+            # let the pressure iteration converge (default stops at 10 %): otherwise thin
+            # two-field walls end in the start-dependent regime recorded as a known finding,
+            # which would absorb any other divergence between the labellings
+            c["cfg"] = {"pressRelErrTol": 1e-3, "maxIterations": 60}
+        cases.append(c)
     return cases
 
 
@@ -167,8 +183,10 @@ def compare(ref, oth, tr, A, b, viol, tag):
                 want_pt = A @ fp_ref[idx] + b
                 d = float(np.max(np.abs(fp_oth[idx] - want_pt)) / fs)
                 obs[f"profile_{name}"] = d
-                if d > 1e-3:
-                    fail("solve", f"field profile {name}", d, 1e-3)
+                # the end points are the vevs at T-+, which follow v_w (errTol = 1e-3) with
+                # d ln phi / d ln T of a few; thorough tier, unchanged tree: 1.12e-3
+                if d > 5e-3:
+                    fail("solve", f"field profile {name}", d, 5e-3)
     return obs
 
 
@@ -193,7 +211,24 @@ def reclassify_solve(viol, nv, o, spec, cfg, mon):
         return
     v, P1, P2, rel, rtol = best
     o["start_dependence"] = {"vw": v, "P1": P1, "P2": P2, "rel": rel}
+    early = False
     if rel > 3 * rtol:
+        # the known finding is a start dependence between end states that are each a local
+        # minimum of the action; an end state held by something else is not absorbed
+        try:
+            ends = MT.start_dependence_end_states(spec, cfg, v)
+            o["start_dependence"]["end_states"] = ends
+            early = all(e["stationary"] for e in ends)
+            if not early:
+                bad = [e for e in ends if not e["stationary"]][0]
+                viol.append({"mech": "wall-parameters-not-a-minimum-of-the-action",
+                             "msg": f"wallPressure({v:.5g}) ends at widths*Tn={bad['widthsTn']}"
+                             f", offsets={bad['offsets']} where the action is lower by "
+                             f"{-bad['action_drop_over_scale']:.2e} of its kinetic part at "
+                             f"{bad['where']} (on {spec})", "data": {"end_states": ends}})
+        except Exception as exc:
+            o["start_dependence"]["end_state_probe_error"] = repr(exc)[:100]
+    if rel > 3 * rtol and early:
         for x in viol[nv:]:
             if x["mech"].startswith("not-covariant:solve:"):
                 x["msg"] += (f" | mechanism probe: wallPressure({v:.4g}) = {P1:.4e} from "
@@ -209,8 +244,9 @@ def run_case(case):
     nf = 2 if spec["family"] == "poly2" else 1
     if spec["family"] == "poly2" and "particles" not in spec:
         pass
+    cfg = dict(CFG, **case.get("cfg", {}))
     try:
-        ref = MT.pipeline(spec, CFG, solve=True)
+        ref = MT.pipeline(spec, cfg, solve=True)
         mon["pipelines"] += 1
     except Exception as exc:
         return {"key": key0, "cls": "reference-failed", "nontrivial": False,
@@ -231,7 +267,7 @@ def run_case(case):
         # per-field variation scales follow the permutation; they are differences, so a
         # translation does not change them
         try:
-            oth = MT.pipeline(sp2, CFG, solve=True)
+            oth = MT.pipeline(sp2, cfg, solve=True)
             mon["pipelines"] += 1
         except Exception as exc:
             viol.append({"mech": "not-covariant:pipeline-raises",
@@ -254,7 +290,7 @@ def run_case(case):
             continue
         nv = len(viol)
         o = compare(ref, oth, tr, pot2.A, pot2.b, viol, tag)
-        reclassify_solve(viol, nv, o, spec, CFG, mon)
+        reclassify_solve(viol, nv, o, spec, cfg, mon)
         mon["pairs_compared"] += 1
         rows.append({"transform": tr, **o})
         kind = "translation" if any(tr["shift_in_vev"]) else "relabel"
